@@ -195,6 +195,11 @@ func (t *T) RunUntilCrash(k int, f func()) bool {
 // the handler directly; natively nil — harnesses send a real request instead).
 func (t *T) Served(addr string) http.Handler { return nil }
 
+// YieldOnRead selects the engine's second deterministic schedule: a goroutine
+// that reads file content (a hash pass) lets every other runnable goroutine
+// run first (engine only).
+func (t *T) YieldOnRead(on bool) {}
+
 // KillProcess ends every goroutine of the code under test (engine only).
 func (t *T) KillProcess() {}
 
